@@ -11,6 +11,10 @@ CLAIMED = {
                   "over all families x modes x overflow modes x operand types at every kind of breakpoint, each case also judged by a rational Spec oracle.",
              note=TB + "; gmpy2/MPFR not used by the model (non-dyadic operands are modelled by exact integer division and compared with the real MPFR path).",
              tech="Lean 4 proof (omega/simp over Nat/Int) + model-vs-code correspondence + rational Spec oracle", ref="5/C01"),
+
+ 'C17': dict(text="Lean theorems (no bound on widths, exponents or k): stochastic rounding equals deterministic rounding with a thresholded mode; pointwise result for every draw r < 2^k is the upper neighbour iff 2^k <= r + m; the count of round-away draws over all 2^k draws is exactly m = the distance past the lower neighbour in units of 2^-k of the gap rounded by the mode; representable operands unchanged; mean within 2^-k of the gap (exact when k covers all lost digits); float shape included. Tie: every one of the 2^k scripted draws replayed on the real code and the model for every generated (context, operand), plus a Spec oracle on neighbours/count/one draw.",
+             note=TB + "; the real code's single call to the generator is observed by a scripted random.Random subclass (not provable in Lean).",
+             tech="Lean 4 proof (induction over List.range, omega) + exhaustive-draw correspondence + Spec oracle", ref="5/C17"),
 }
 NA_REASON = "check not built yet (work in progress; see DESIGN.md section 8 build order)"
 
